@@ -225,9 +225,22 @@ fn cmd_run(args: &[String]) {
                     let mut r = rng::Rng::new(seed ^ 0xC22);
                     let mut chosen: Vec<u64> = vec![];
                     // every callback of the rare classes (capped), a sample of body ops
+                    let evk: Vec<u8> = db::fault::EVKINDS.lock().unwrap_or_else(|e| e.into_inner()).clone();
+                    // event callbacks: the rare events (discards, slot reuse, cycle events) first
+                    let rare = |k: u8| {
+                        k == db::SK::DidDiscard as u8 || k == db::SK::WillDiscardStaleOutput as u8 || k == db::SK::DidReuseInterned as u8 || k == db::SK::DidDiscardAccumulated as u8 || k == db::SK::WillIterateCycle as u8 || k == db::SK::DidFinalizeCycle as u8 || k == db::SK::DidSetCancellationFlag as u8 || k == 254
+                    };
+                    let rare_ev: Vec<u64> = (0..kinds.len()).filter(|i| kinds[*i] == prog::Cb::Event && rare(evk[*i])).map(|i| i as u64).collect();
+                    if rare_ev.len() <= 10 {
+                        chosen.extend(rare_ev);
+                    } else {
+                        for _ in 0..10 {
+                            chosen.push(*r.pick(&rare_ev));
+                        }
+                    }
                     for class in [prog::Cb::ValEq, prog::Cb::ValHash, prog::Cb::CycleFn, prog::Cb::CycleInitial, prog::Cb::Event] {
                         let idx: Vec<u64> = kinds.iter().enumerate().filter(|(_, k)| **k == class).map(|(i, _)| i as u64).collect();
-                        let cap = 6;
+                        let cap = if class == prog::Cb::Event { 3 } else { 6 };
                         if idx.len() <= cap {
                             chosen.extend(idx);
                         } else {
